@@ -102,6 +102,15 @@ def plan_for(eng):
     base = baseline_fn(key)
     cl = loops_of(cur)
     carrier_map, orphans = None, []
+    # loops LEFT the carrier (as opposed to: were deleted / rewritten) only if it now calls a function of its module, with a loop
+    # in it, that the baseline text did not call; otherwise nothing is re-anchored (ordinals as they are, the behaviour before)
+    new_helpers = set()
+    if base is not None:
+        mod = extract.load(key.split(":")[0])[1]
+        fresh_calls = _callees(cur) - _callees(base)
+        new_helpers = {st.name for st in ast.walk(mod) if isinstance(st, (ast.FunctionDef, ast.AsyncFunctionDef)) and st.name in fresh_calls and st is not cur and loops_of(st)}
+    if not new_helpers:
+        return None
     if base is not None:
         bl = loops_of(base)
         base_locs, cur_locs = align.local_names(base, True), align.local_names(cur, True)
@@ -126,6 +135,8 @@ def plan_for(eng):
         if isinstance(k, str) and isinstance(sp, dict) and sp.get("applies") is not None and not any(sp["applies"](c) for c in cl):
             orphans.append((k, None))
     p = Plan(carrier_map, orphans, base, base_locs, cur) if (carrier_map is not None or orphans) else None
+    if p is not None:
+        p.new_helpers = new_helpers
     cache[ck] = p
     return p
 
@@ -203,7 +214,7 @@ def helper_plan(eng, func):
         return p.helpers[func.key]
     p.helpers[func.key] = None
     node = func.node
-    if not isinstance(node, (ast.FunctionDef, ast.AsyncFunctionDef)):
+    if not isinstance(node, (ast.FunctionDef, ast.AsyncFunctionDef)) or node.name not in p.new_helpers:
         return None
     hl = loops_of(node)
     if not hl:
